@@ -471,6 +471,13 @@ def _vtime():
     return s.time() if s else _time.time()
 
 
+MONO_OFFSET = 999000.0      # the monotonic clock has another epoch than the wall clock (like uptime vs. date)
+
+
+def _vmonotonic():
+    return _vtime() - MONO_OFFSET
+
+
 def _vsleep(d):
     s = S()
     if s:
@@ -479,7 +486,7 @@ def _vsleep(d):
 
 FAKE_THREADING = _Mod(_threading, Event=DEvent, Lock=DLock, RLock=DRLock, Thread=DThread,
                       current_thread=current_thread)
-FAKE_TIME = _Mod(_time, time=_vtime, sleep=_vsleep, monotonic=_vtime)
+FAKE_TIME = _Mod(_time, time=_vtime, sleep=_vsleep, monotonic=_vmonotonic)
 FAKE_QUEUE = _Mod(_queue, Queue=DQueue)
 
 
@@ -498,7 +505,7 @@ class Patch:
             (_threading.Event, DEvent), (_threading.Lock, DLock), (_threading.RLock, DRLock),
             (_threading.Thread, DThread), (_threading.current_thread, current_thread),
             (_queue.Queue, DQueue), (_time.time, _vtime), (_time.sleep, _vsleep),
-            (_time.monotonic, _vtime), (frappy.lib.mkthread, mkthread),
+            (_time.monotonic, _vmonotonic), (frappy.lib.mkthread, mkthread),
         ]
         for m in self.modules:
             for k, v in list(vars(m).items()):
